@@ -88,3 +88,17 @@ def effects_of(repo):
 def types_of(repo):
     effects_of(repo)
     return repo._types
+
+
+def actuals(callee, call, is_method=False):
+    """Actual argument nodes of a call in the order of the callee's formals (positional and keyword actuals bound by
+    Python's rules); None where a formal receives no explicit actual."""
+    from ..rules.resolve import bind
+    m, err = bind(callee, call, is_method)
+    ps = callee.posparams[1:] if is_method else callee.posparams
+    return [m.get(p) for p in ps]
+
+
+def actual_texts(callee, call, is_method=False):
+    from ..model import norm
+    return [norm(a) if a is not None else None for a in actuals(callee, call, is_method)]
